@@ -108,7 +108,7 @@ func (code128Encoder) encodeWithHints(contentsStr string, hints map[gozxing.Enco
 			break
 		case code128CODE_CODE_B:
 			// allows no ascii below 32 (terminal symbols)
-			if c <= 32 {
+			if c < 32 {
 				return nil, gozxing.NewWriterException(
 					"IllegalArgumentException: Bad character in input for forced code set B: ASCII value=%v", int(c))
 			}
